@@ -5,16 +5,20 @@ import RsslVerif.Model.Macro
 Mirrors `preprocess_included_file` (the line state machine: text lines are collected in `active_tokens`, with their
 line ends, and macro-expanded as one block when the next directive -- or the end of the file -- is reached),
 the `define` / `undef` / `include` / `pragma` arms of `preprocess_command`, `FileLoader::load` /
-`mark_as_pragma_once`, and `preprocess_initial_file` (API-level defines become object-like macros whose tokens have
-no location; they are pushed without removing an earlier entry of the same name).
+`mark_as_pragma_once`, and `preprocess_initial_file` (API-level defines go through the `#define` path since 9f7cdb8;
+a value that contains a line end is rejected since 3c81ed5).
 
 Representation choices:
 * a file is the list of its lines, a line is its token list (the lexer is C10's concern; the harness checks with the
   real lexer that every rendered line lexes to exactly the tokens of the request);
-* `FileLoader.file_name_remap` gives every distinct *include name* one fresh `FileId`, and
-  `pragma_once_files` is a set of `FileId`s: the ids are in bijection with the include names seen so far, so the
-  set is modelled as a list of include names.  The cache of loaded files is not observable with a deterministic
-  include handler and is not modelled.
+* `pragma_once_files` is a set of `FileId`s.  Since fix d66a6d7 `FileLoader::load` gives one `FileId` to every distinct
+  *real name* the include handler reports (`real_name_remap`; `file_name_remap` only caches include name ↦ id), so the
+  ids are in bijection with the real names seen so far and the set is modelled as a list of real names: a file
+  reached under a second include name is the same file.  (Before the fix every include name had its own id.)
+  The handler returns `FileData { real_name, contents }`: here `(real name, lines)`.  The contents the loader serves
+  for an id are those stored when the real name was first seen (`source_manager.get_contents(id)`); with an include
+  handler that reports one content per real name (assumption; the driver answers `unsupported` for a request that
+  gives two contents to one real name) that is what the handler returns, and the caches are not observable.
 * the recursion of `preprocess_included_file` through `#include` is bounded by `fuel`; since fix 6b8d369 the Rust
   code has the bound `MAX_INCLUDE_DEPTH` (tested before the file is loaded): run with
   `fuel = Gen.MacroTables.maxIncludeDepth`, `Err.includeFuel` is exactly `IncludeDepthExceeded`.
@@ -35,15 +39,15 @@ inductive Line where
   | text (toks : List PTok)
   deriving DecidableEq, Repr, Inhabited
 
-/-- the include handler: include name ↦ lines of the file -/
-abbrev Handler := String → Option (List Line)
+/-- the include handler: include name ↦ `FileData { real_name, contents }` = (real name, lines of the file) -/
+abbrev Handler := String → Option (String × List Line)
 
 structure State where
   /-- `macros: Vec<Macro>` in definition order -/
   macros : List Macro
   /-- the output buffer -/
   out : List PTok
-  /-- `FileLoader.pragma_once_files`, by include name -/
+  /-- `FileLoader.pragma_once_files`: the `FileId`s, each named by the real name it was created for (fix d66a6d7) -/
   once : List String
   deriving DecidableEq, Repr, Inhabited
 
@@ -77,7 +81,7 @@ def doUndef (macros : List Macro) (command : List PTok) : Except Err (List Macro
   | _ => .error .invalidUndef
 
 /-- One line of the current file. `inc` processes an included file (the recursive call);
-`cur` is the include name of the current file. The pair is (state, `active_tokens`). -/
+`cur` is the `FileId` of the current file (= its real name). The pair is (state, `active_tokens`). -/
 def stepLine (inc : String → State → Except Err State) (cur : String) :
     State × List PTok → Line → Except Err (State × List PTok)
   | (st, active), .text toks => .ok (st, active ++ toks ++ [eol])
@@ -131,15 +135,16 @@ def runFile (inc : String → State → Except Err State) (cur : String) (st : S
   | .error e => .error e
   | .ok (st, active) => flush st active
 
-/-- `FileLoader::load` followed by `preprocess_included_file` -/
+/-- `FileLoader::load` followed by `preprocess_included_file`: the file's id is the one of its *real name*
+(`real_name_remap`, fix d66a6d7); a file whose id is in `pragma_once_files` is served with empty contents -/
 def includeFile (h : Handler) : Nat → String → State → Except Err State
   | 0, _, _ => .error .includeFuel
   | fuel + 1, name, st =>
     match h name with
     | none => .error (.failedToFindFile name)
-    | some lines =>
-      if st.once.contains name then runFile (includeFile h fuel) name st []
-      else runFile (includeFile h fuel) name st lines
+    | some (real, lines) =>
+      if st.once.contains real then runFile (includeFile h fuel) real st []
+      else runFile (includeFile h fuel) real st lines
 
 /-- An API-level define `(name, value)`: `preprocess_initial_file` registers the text `name value` as a file of its
 own (`<define>`), lexes it with that location and without a trailing line end, and hands the tokens to
@@ -155,13 +160,20 @@ def located (ts : List Tok) : List PTok := ts.map (⟨·, true⟩)
 /-- the tokens handed to `Macro::parse` -/
 def apiCommand (d : ApiDefine) : List PTok := located d.name ++ ⟨.ws, true⟩ :: located d.value
 
-/-- "Add initial macros": parse, remove an earlier macro of that name, push -- the `#define` arm -/
+/-- "A define is a single line so the value can not contain a line break" (fix 3c81ed5):
+`tokens.iter().any(|t| t.0 == Token::Endline)` -/
+def hasLineBreak (d : ApiDefine) : Bool := (apiCommand d).any (fun t => t.tok == .endline)
+
+/-- "Add initial macros": reject a line break, then parse, remove an earlier macro of that name, push -- the
+`#define` arm -/
 def initialMacros : List Macro → List ApiDefine → Except Err (List Macro)
   | ms, [] => .ok ms
   | ms, d :: ds =>
-    match doDefine ms (apiCommand d) with
-    | .error e => .error e
-    | .ok ms' => initialMacros ms' ds
+    if hasLineBreak d then .error .invalidDefine
+    else
+      match doDefine ms (apiCommand d) with
+      | .error e => .error e
+      | .ok ms' => initialMacros ms' ds
 
 /-- `preprocess_initial_file` on the lines of the entry file, `inc` = processing of an included file -/
 def runInitial (inc : String → State → Except Err State) (entry : String) (api : List ApiDefine)
@@ -175,8 +187,8 @@ def preprocess (h : Handler) (fuel : Nat) (api : List ApiDefine) (entry : String
     Except Err (List PTok) :=
   match h entry with
   | none => .error (.failedToFindFile entry)
-  | some lines =>
-    match runInitial (includeFile h fuel) entry api lines with
+  | some (real, lines) =>
+    match runInitial (includeFile h fuel) real api lines with
     | .error e => .error e
     | .ok st => .ok st.out
 
